@@ -489,7 +489,9 @@ class Contour(BaseObject):
         # XXX subclasses should never, ever do
         # XXX anything like this. this is a *very*
         # XXX special case.
-        if "defcon.contour.bounds" in self._representations:
+        # (a factory that raised leaves an empty dict behind,
+        # there is nothing to update then)
+        if None in self._representations.get("defcon.contour.bounds", {}):
             bounds = self._representations["defcon.contour.bounds"][None]
             if bounds is not None:
                 xMin, yMin, xMax, yMax = bounds
@@ -499,7 +501,7 @@ class Contour(BaseObject):
                 yMax += y
                 bounds = (xMin, yMin, xMax, yMax)
             self._representations["defcon.contour.bounds"][None] = bounds
-        if "defcon.contour.controlPointBounds" in self._representations:
+        if None in self._representations.get("defcon.contour.controlPointBounds", {}):
             bounds = self._representations["defcon.contour.controlPointBounds"][None]
             if bounds is not None:
                 xMin, yMin, xMax, yMax = bounds
